@@ -358,7 +358,7 @@ grammar = Grammar(
                     / instr_expr
                     / array_ref_exp
                     / var
-    unop_exp        = unop space* exp
+    unop_exp        = unop space* num_power_exp
     paren_exp       =  "(" space* exp space* ")" space*
     str_exp          = str_simple_exp space* str_exp_elements
     str_exp_elements = str_exp_element*
